@@ -22,7 +22,7 @@ else PKGDIR=$CANDS; fi
 PKGDIR=${PKGDIR%/}
 echo "seed=$SD pkgdir=$PKGDIR"
 git apply $SD/patch.diff || { echo "RESULT apply-failed"; exit 1; }
-SUITE=$(timeout 1500 go test -vet=off -count=1 ./... 2>&1 | grep -v 'internal/loadhdf5' | grep -E '^(FAIL|---|panic)' | head -5)
+SUITE=$(timeout 1500 go test -vet=off -count=1 ./... 2>&1 | grep -v 'internal/loadhdf5' | grep -E '^(FAIL[[:space:]]+[^[:space:]]|--- FAIL|panic:)' | head -5)
 if [ -n "$SUITE" ]; then echo "RESULT suite-fails-with-patch: $SUITE"; exit 1; fi
 cp $DEMO $PKGDIR/
 W=$(timeout 600 go test -vet=off -count=1 ./$PKGDIR/ -run "$(grep -oE '^func (Test[A-Za-z0-9_]+)' $DEMO | awk '{print $2}' | paste -sd'|')" 2>&1 | tail -30)
